@@ -76,6 +76,11 @@ pub fn gen_size(rng: &mut StdRng, max: usize) -> usize {
         }
         10..=14 => rng.gen_range(200..20_000),
         15..=17 => rng.gen_range(20_000..300_000),
+        18 => {
+            // at and around powers of two (internal thresholds sit there)
+            let k = rng.gen_range(10..=22u32);
+            ((1usize << k) + rng.gen_range(0..3usize) - 1).min(max)
+        }
         _ => rng.gen_range(300_000..=max.max(300_001)),
     };
     s.min(max)
@@ -372,7 +377,7 @@ pub fn run(ctx: &Ctx) -> i32 {
         budget: Duration::from_secs(tier.pick(120, 1200)),
         only: ctx.only,
     };
-    let (max_body, max_conc) = tier.pick((4 << 20, 200), (16 << 20, 200));
+    let (max_body, max_conc) = tier.pick((5 << 20, 200), (16 << 20, 200));
     // the first scenarios are real-socket multi-thread stress runs (E2), the rest simulated
     let n_real = tier.pick(2, 12);
     let real_ms = tier.pick(2_500, 15_000);
